@@ -210,8 +210,12 @@ func meterCorpus() []prog {
 	for _, n := range []int{3, 17, 100, 255, 256, 1000} {
 		add(fmt.Sprintf("ints%d", n), fmt.Sprintf(`access(all) fun main(): Int { var s = 0; var i = 0; while i < %d { s = s + i * 2 - 1; i = i + 1 }; return s }`, n))
 	}
-	for _, t := range []string{"Int8", "UInt64", "Int128", "UInt256", "Word32", "Fix64", "UFix64"} {
-		add("arith-"+t, fmt.Sprintf(`access(all) fun main(): %s { var s: %s = 1; var i = 0; while i < 6 { s = s + 1; s = s * 2 / 2; i = i + 1 }; return s }`, t, t))
+	for _, t := range []string{"Int8", "UInt64", "Int128", "UInt256", "Word32", "Fix64", "UFix64", "Fix128", "UFix128"} {
+		one, two := "1", "2"
+		if strings.Contains(t, "Fix") {
+			one, two = "1.0", "2.0"
+		}
+		add("arith-"+t, fmt.Sprintf(`access(all) fun main(): %[1]s { var s: %[1]s = %[2]s; var i = 0; while i < 6 { s = s + %[2]s; s = s * %[3]s / %[3]s; i = i + 1 }; return s }`, t, one, two))
 	}
 	add("strings", `access(all) fun main(): String { var s = "a"; var i = 0; while i < 20 { s = s.concat("bc").toLower(); i = i + 1 }; return s.slice(from: 3, upTo: 9) }`)
 	add("arrays", `access(all) fun main(): Int { let xs: [Int] = []; var i = 0; while i < 50 { xs.append(i); i = i + 1 }; return xs.reverse().slice(from: 3, upTo: 9).length + xs.filter(view fun (x: Int): Bool { return x % 2 == 0 }).length }`)
@@ -235,6 +239,37 @@ access(all) fun main(): Int { return fib(12) }`)
 	add("failing", `access(all) fun main(): Int { let xs: [Int] = [1]; return xs[3] }`)
 	add("panic", `access(all) fun main(): Int { panic("no") }`)
 	add("typeerror", `access(all) fun main(): Int { return "x" }`)
+	// built-in functions and types whose values/functions may be cached per process
+	for _, t := range []string{"Int", "UInt8", "Int64", "UInt256", "Word16"} {
+		add("range-"+t, fmt.Sprintf(`access(all) fun main(): Int { let r = InclusiveRange<%[1]s>(1, 9, step: 2); var n = 0; for i in r { n = n + 1 }; if r.contains(5) { n = n + 1 }; let r2 = InclusiveRange<%[1]s>(1, 3); return n + (r2.contains(2) ? 1 : 0) }`, t))
+	}
+	add("typector", `access(all) fun main(): [String] { return [OptionalType(Type<Int>()).identifier, VariableSizedArrayType(Type<String>()).identifier, DictionaryType(key: Type<Int>(), value: Type<String>())!.identifier, ReferenceType(entitlements: [], type: Type<Int>())!.identifier, InclusiveRangeType(Type<Int>())!.identifier] }`)
+	add("stringfns", `access(all) fun main(): [String] { let s = "Hello, Wörld"; return [s.toLower(), String.encodeHex(s.utf8), String.fromUTF8(s.utf8)!, String.join(s.split(separator: ", "), separator: "-"), s.replaceAll(of: "l", with: "L"), String.fromCharacters(["a", "b"])] }`)
+	add("numfns", `access(all) fun main(): [String] { return [Int.fromString("123")!.toString(), UInt8.fromBigEndianBytes([7])!.toString(), (255 as UInt8).toBigEndianBytes().length.toString(), Fix64.fromString("1.5")!.toString(), Int8.min.toString(), UInt64.max.toString(), (7 as Int8).saturatingAdd(1) == 8 ? "y" : "n"] }`)
+	add("address", `access(all) fun main(): [String] { let a: Address = 0x2; return [a.toString(), Address.fromString("0x0000000000000002")!.toString(), Address.fromBytes(a.toBytes()).toString()] }`)
+	add("paths", `access(all) fun main(): [String] { return [StoragePath(identifier: "foo")!.toString(), PublicPath(identifier: "bar")!.toString(), /storage/x.toString()] }`)
+	add("account", `access(all) fun main(): [String] { let a = getAccount(0x2); return [a.address.toString(), a.contracts.names.length.toString(), a.capabilities.exists(/public/x) ? "y" : "n", a.storage.storagePaths.length.toString()] }`)
+	add("authaccount", `import T from 0x1
+access(all) fun main(): Int { let a = getAuthAccount<auth(Storage, Capabilities) &Account>(0x2); a.storage.save(T.S(id: 3), to: /storage/s); let c = a.capabilities.storage.issue<&T.S>(/storage/s); var n = 0; a.capabilities.storage.forEachController(forPath: /storage/s, fun (c: &StorageCapabilityController): Bool { n = n + 1; return true }); a.storage.forEachStored(fun (p: StoragePath, t: Type): Bool { n = n + 1; return true }); return n + c.borrow()!.id }`)
+	add("rlp", `access(all) fun main(): Int { return RLP.decodeString([0x83, 0x64, 0x6f, 0x67]).length + RLP.decodeList([0xc4, 0x83, 0x64, 0x6f, 0x67]).length }`)
+	add("conditions", `access(all) struct interface I { access(all) fun f(_ x: Int): Int { pre { x > 0: "pos" } post { result > x: "grow" } } }
+access(all) struct S: I { access(all) fun f(_ x: Int): Int { return x + 1 } }
+access(all) fun main(): Int { return S().f(3) }`)
+	add("enumswitch", `access(all) enum E: UInt8 { access(all) case a; access(all) case b }
+access(all) fun main(): Int { var n = 0; for e in [E.a, E.b, E(rawValue: 1)!] { switch e { case E.a: n = n + 1; default: n = n + 10 } }; return n }`)
+	add("attachment", `access(all) struct S { access(all) let id: Int; init() { self.id = 1 } }
+access(all) attachment A for S { access(all) fun hello(): Int { return base.id + 1 } }
+access(all) fun main(): Int { let s = attach A() to S(); var n = s[A]!.hello(); s.forEachAttachment(fun (a: &AnyStructAttachment) { n = n + 1 }); return n }`)
+	add("entitlements", `access(all) entitlement E
+access(all) struct S { access(E) fun g(): Int { return 2 } access(all) fun f(): Int { return 1 } }
+access(all) fun main(): Int { let s = S(); let r = &s as auth(E) &S; let u = r as &S; return r.g() + u.f() }`)
+	add("optchain", `access(all) struct S { access(all) var n: S2?; init() { self.n = S2() } }
+access(all) struct S2 { access(all) let v: Int; init() { self.v = 4 } }
+access(all) fun main(): Int { let s: S? = S(); let t: S? = nil; return (s?.n?.v ?? 0) + (t?.n?.v ?? 1) }`)
+	add("sort-filter-map", `access(all) fun main(): [Int] { let xs = [5, 3, 9, 1]; return xs.map(fun (x: Int): Int { return x * 2 }).filter(view fun (x: Int): Bool { return x > 4 }).concat(xs.slice(from: 1, upTo: 3)).reverse() }`)
+	add("block", `access(all) fun main(): UInt64 { let b = getCurrentBlock(); return b.height + getBlock(at: b.height)!.view }`)
+	add("tx-multi", `import T from 0x1
+transaction { prepare(a: auth(Storage) &Account) { var i = 0; while i < 30 { a.storage.save(T.S(id: i), to: StoragePath(identifier: "p".concat(i.toString()))!); i = i + 1 } } execute { log("done") } post { true: "ok" } }`)
 	add("events", `import E from 0x1
 transaction { prepare(a: auth(Storage) &Account) { E.ping(1); let r <- E.mk(); destroy r } }`)
 	return ps
